@@ -35,22 +35,24 @@ type failing struct {
 
 // harnessResult is what exploring one harness at one bound produced (also the worker's JSON output).
 type harnessResult struct {
-	Harness    string           `json:"harness"`
-	Bound      int              `json:"bound"`
-	Stats      vsched.Stats     `json:"stats"`
-	Outcomes   map[string]int64 `json:"outcomes"`       // execution outcome -> count
-	Classes    map[string]int64 `json:"result_classes"` // canonical (call results, final state) -> count
-	Overlaps   map[string]int64 `json:"overlaps"`       // call -> executions in which it overlapped Shutdown
-	Traces     int              `json:"distinct_traces"`
-	Nontriv    int              `json:"distinct_nontrivial_traces"`
-	Failures   []*failing       `json:"failures"`
-	Samples    [][]string       `json:"samples"`
-	WallS      float64          `json:"wall_s"`
-	TraceKeys  []uint64         `json:"-"`
-	NontrivK   []uint64         `json:"-"`
-	Counts     map[string]int64 `json:"harness_counters"`
-	MaxBlocked int              `json:"max_goroutines_left_blocked"`
-	Bits       uint             `json:"visited_table_bits"`
+	Harness       string           `json:"harness"`
+	Bound         int              `json:"bound"`
+	Stats         vsched.Stats     `json:"stats"`
+	Outcomes      map[string]int64 `json:"outcomes"`       // execution outcome -> count
+	Classes       map[string]int64 `json:"result_classes"` // canonical (call results, final state) -> count
+	Overlaps      map[string]int64 `json:"overlaps"`       // call -> executions in which it overlapped Shutdown
+	Traces        int              `json:"distinct_traces"`
+	Nontriv       int              `json:"distinct_nontrivial_traces"`
+	Failures      []*failing       `json:"failures"`
+	Samples       [][]string       `json:"samples"`
+	WallS         float64          `json:"wall_s"`
+	TraceKeys     []uint64         `json:"-"`
+	NontrivK      []uint64         `json:"-"`
+	Counts        map[string]int64 `json:"harness_counters"`
+	MaxBlocked    int              `json:"max_goroutines_left_blocked"`
+	Bits          uint             `json:"visited_table_bits"`
+	Workers       int              `json:"worker_processes"`
+	FrontierItems int              `json:"frontier_items"`
 }
 
 // judge turns one execution into failure signatures (empty = the execution satisfies the oracles).
@@ -178,10 +180,6 @@ var lastObs *obs
 var budgetEnd time.Time
 var exploreNoSleep, exploreNoCache bool
 
-// set in worker processes: the visited table shared with the sibling workers, and this worker's shuffle seed
-var sharedTable *vsched.SharedTable
-var shuffleSeed uint64
-
 func bodyOf(h *harness) func() {
 	return func() {
 		o := &obs{}
@@ -190,19 +188,34 @@ func bodyOf(h *harness) func() {
 	}
 }
 
-func exploreHarness(h *harness, bound int, deadline time.Time, maxExecs int64) *harnessResult {
+// exploreCfg says which part of a harness's schedule tree to explore and how.
+type exploreCfg struct {
+	bound         int
+	deadline      time.Time
+	maxExecs      int64
+	shared        *vsched.SharedTable
+	shuffle       uint64
+	frontierDepth int
+	onFrontier    func([]vsched.PrefixStep)
+	next          func() ([]vsched.PrefixStep, bool) // work items (nil prefix = the whole tree); nil: just the whole tree
+}
+
+func exploreHarness(h *harness, cfg exploreCfg) *harnessResult {
 	start := time.Now()
+	bound := cfg.bound
 	res := &harnessResult{Harness: h.Name, Bound: bound, Outcomes: map[string]int64{}, Classes: map[string]int64{}, Overlaps: map[string]int64{}, Counts: map[string]int64{}}
 	traces := map[[2]uint64]bool{}
 	nontriv := map[[2]uint64]bool{}
 	fails := map[string]*failing{}
-	opts := vsched.Options{Bound: bound, Horizon: 4000, Deadline: deadline, MaxExecs: maxExecs, LowPriority: lowPriority, Sleep: os.Getenv("VERIF_C32_SLEEP") != "" && !exploreNoSleep, NoCache: exploreNoCache, Shuffle: shuffleSeed}
-	if sharedTable != nil {
-		opts.Shared = sharedTable
+	opts := vsched.Options{Bound: bound, Horizon: 4000, Deadline: cfg.deadline, MaxExecs: cfg.maxExecs, LowPriority: lowPriority,
+		Sleep: os.Getenv("VERIF_C32_SLEEP") != "" && !exploreNoSleep, NoCache: exploreNoCache, Shuffle: cfg.shuffle,
+		FrontierDepth: cfg.frontierDepth, OnFrontier: cfg.onFrontier}
+	if cfg.shared != nil {
+		opts.Shared = cfg.shared
 	}
 	var sampleChoices [][]vsched.Choice
 	body := bodyOf(h)
-	res.Stats = vsched.Explore(body, opts, func(e *vsched.Execution) bool {
+	onExec := func(e *vsched.Execution) bool {
 		o := lastObs
 		lastObs = nil
 		for _, s := range judge(h, e, o) {
@@ -235,12 +248,6 @@ func exploreHarness(h *harness, bound int, deadline time.Time, maxExecs int64) *
 					sort.Strings(ks)
 					cl += " " + strings.Join(ks, ",") + fmt.Sprintf(" blocked=%d goroutines=%d", len(e.Blocked), e.Goroutines)
 				}
-				if m := os.Getenv("VERIF_C32_MATCH"); m != "" && strings.Contains(cl, m) && res.Classes[cl] == 0 {
-					r := vsched.Replay(body, e.Choices, opts)
-					for _, l := range traceLines(r, 0) {
-						fmt.Println(l)
-					}
-				}
 				res.Classes[cl]++
 			}
 			for k, v := range o.counts {
@@ -250,13 +257,63 @@ func exploreHarness(h *harness, bound int, deadline time.Time, maxExecs int64) *
 		for k := range overlaps(e.Notes) {
 			res.Overlaps[k]++
 		}
-		if n := len(sampleChoices); n < 3 && e.Nontrivial && e.Outcome == vsched.Completed && (n == 0 || res.Stats.Executions%97 == 0 || true) {
-			if n == 0 || len(traces)%3 == 0 {
-				sampleChoices = append(sampleChoices, append([]vsched.Choice(nil), e.Choices...))
-			}
+		if n := len(sampleChoices); n < 2 && e.Nontrivial && e.Outcome == vsched.Completed && (n == 0 || len(traces)%7 == 0) {
+			sampleChoices = append(sampleChoices, append([]vsched.Choice(nil), e.Choices...))
 		}
 		return true
-	})
+	}
+	res.Stats.Bound = bound
+	res.Stats.Exhaustive = true
+	first := true
+	for {
+		var prefix []vsched.PrefixStep
+		if cfg.next != nil {
+			p, ok := cfg.next()
+			if !ok {
+				break
+			}
+			prefix = p
+		} else if !first {
+			break
+		}
+		first = false
+		opts.Prefix = prefix
+		if cfg.maxExecs > 0 {
+			opts.MaxExecs = cfg.maxExecs - res.Stats.Executions - res.Stats.Pruned
+			if opts.MaxExecs <= 0 {
+				res.Stats.Exhaustive = false
+				res.Stats.Stopped = "execution cap"
+				break
+			}
+		}
+		st := vsched.Explore(body, opts, onExec)
+		res.Stats.Executions += st.Executions
+		res.Stats.Pruned += st.Pruned
+		res.Stats.Frontier += st.Frontier
+		res.Stats.Skipped += st.Skipped
+		res.Stats.Steps += st.Steps
+		res.Stats.Accesses += st.Accesses
+		res.Stats.CacheStates += st.CacheStates
+		if st.MaxSteps > res.Stats.MaxSteps {
+			res.Stats.MaxSteps = st.MaxSteps
+		}
+		if st.MaxGoroutines > res.Stats.MaxGoroutines {
+			res.Stats.MaxGoroutines = st.MaxGoroutines
+		}
+		if st.MaxDepth > res.Stats.MaxDepth {
+			res.Stats.MaxDepth = st.MaxDepth
+		}
+		if st.Broken != "" {
+			res.Stats.Broken = st.Broken
+			res.Stats.Exhaustive = false
+			break
+		}
+		if !st.Exhaustive {
+			res.Stats.Exhaustive = false
+			res.Stats.Stopped = st.Stopped
+			break
+		}
+	}
 	res.Traces, res.Nontriv = len(traces), len(nontriv)
 	for k := range traces {
 		res.TraceKeys = append(res.TraceKeys, k[0])
@@ -268,9 +325,11 @@ func exploreHarness(h *harness, bound int, deadline time.Time, maxExecs int64) *
 		res.Failures = append(res.Failures, f)
 	}
 	sort.Slice(res.Failures, func(i, j int) bool { return res.Failures[i].Sig < res.Failures[j].Sig })
+	ropts := opts
+	ropts.Shared, ropts.Prefix, ropts.FrontierDepth = nil, nil, 0
 	for _, ch := range sampleChoices {
-		e := vsched.Replay(body, ch, opts)
-		res.Samples = append(res.Samples, traceLines(e, 40))
+		e := vsched.Replay(body, ch, ropts)
+		res.Samples = append(res.Samples, traceLines(e, 60))
 	}
 	res.WallS = time.Since(start).Seconds()
 	return res
@@ -338,6 +397,7 @@ type tierPlan struct {
 }
 
 func c32(r *engine.Run) {
+	runtime.GOMAXPROCS(1) // the cooperative scheduler hands over between goroutines: one P avoids cross-thread wake-ups
 	var plan []tierPlan
 	if r.Quick() {
 		plan = []tierPlan{{"S1", []int{0, 1, 2}}, {"S2", []int{0, 1, 2}}, {"S3", []int{0, 1, 2}}, {"S4", []int{0, 1, 2}}}
@@ -434,133 +494,195 @@ func bitsFor(prev []*harnessResult) uint {
 	return bits
 }
 
+// merge adds the result of a worker (or of the master's own phase) to m.
+func (m *harnessResult) merge(x *harnessResult, traces, nontriv map[uint64]bool, fails map[string]*failing) {
+	s := x.Stats
+	m.Stats.Executions += s.Executions
+	m.Stats.Pruned += s.Pruned
+	m.Stats.Frontier += s.Frontier
+	m.Stats.Skipped += s.Skipped
+	m.Stats.Steps += s.Steps
+	m.Stats.Accesses += s.Accesses
+	if s.MaxSteps > m.Stats.MaxSteps {
+		m.Stats.MaxSteps = s.MaxSteps
+	}
+	if s.MaxGoroutines > m.Stats.MaxGoroutines {
+		m.Stats.MaxGoroutines = s.MaxGoroutines
+	}
+	if s.MaxDepth > m.Stats.MaxDepth {
+		m.Stats.MaxDepth = s.MaxDepth
+	}
+	if !s.Exhaustive {
+		m.Stats.Exhaustive = false
+		if s.Stopped != "" {
+			m.Stats.Stopped = s.Stopped
+		}
+	}
+	if s.Broken != "" {
+		m.Stats.Broken = s.Broken
+	}
+	for k, v := range x.Outcomes {
+		m.Outcomes[k] += v
+	}
+	for k, v := range x.Classes {
+		m.Classes[k] += v
+	}
+	for k, v := range x.Overlaps {
+		m.Overlaps[k] += v
+	}
+	for k, v := range x.Counts {
+		m.Counts[k] += v
+	}
+	if x.MaxBlocked > m.MaxBlocked {
+		m.MaxBlocked = x.MaxBlocked
+	}
+	for _, k := range x.TraceKeys {
+		traces[k] = true
+	}
+	for _, k := range x.NontrivK {
+		nontriv[k] = true
+	}
+	for _, f := range x.Failures {
+		if g := fails[f.Sig]; g == nil {
+			fails[f.Sig] = f
+		} else {
+			g.Count += f.Count
+			if len(f.Choices) < len(g.Choices) {
+				g.Choices = f.Choices
+			}
+		}
+	}
+	if len(m.Samples) < 3 {
+		m.Samples = append(m.Samples, x.Samples...)
+	}
+}
+
+// swarm runs one (harness, bound) job.  Small trees are explored in this process.  Otherwise the master
+// expands the tree down to a frontier of decision prefixes (claiming the states above it in a visited table
+// shared through a memory-mapped file), and numWorkers() worker processes - one cooperative scheduler each -
+// pull the prefixes from a queue and explore the subtrees, sharing the visited table so that every state is
+// expanded by exactly one of them.
 func swarm(r *engine.Run, harnessName string, bound int, bits uint) *harnessResult {
 	start := time.Now()
-	dir := engine.Scratch()
-	table := filepath.Join(dir, fmt.Sprintf("visited-%s-%d", harnessName, bound))
-	defer os.Remove(table)
-	// create the (sparse) table file up front
-	if t, err := vsched.OpenSharedTable(table, bits); err != nil {
-		return &harnessResult{Harness: harnessName, Bound: bound, Stats: vsched.Stats{Bound: bound, Broken: "shared table: " + err.Error()}}
-	} else {
-		t.Close()
-	}
-	n := numWorkers()
-	deadline := budgetEnd
-	type wres struct {
-		res *harnessResult
-		err string
-	}
-	results := make([]wres, n)
-	var wg sync.WaitGroup
-	for i := 0; i < n; i++ {
-		wg.Add(1)
-		go func(i int) {
-			defer wg.Done()
-			keyfile := filepath.Join(dir, fmt.Sprintf("keys-%s-%d-%d", harnessName, bound, i))
-			left := time.Until(deadline) + 30*time.Second
-			wr := engine.RunWorker(nil, 16<<20, left, "explore", harnessName, strconv.Itoa(bound), table, strconv.Itoa(int(bits)),
-				strconv.Itoa(i), strconv.FormatInt(deadline.UnixNano(), 10), keyfile)
-			if wr.TimedOut || wr.Died {
-				results[i].err = fmt.Sprintf("worker %d died (timeout=%v exit=%d): %s", i, wr.TimedOut, wr.ExitCode, tail(string(wr.Stderr), 300))
-				return
-			}
-			var hr harnessResult
-			if err := json.Unmarshal(wr.Stdout, &hr); err != nil {
-				results[i].err = fmt.Sprintf("worker %d: bad output: %v: %s", i, err, tail(string(wr.Stdout), 200))
-				return
-			}
-			hr.TraceKeys, hr.NontrivK = readKeys(keyfile)
-			os.Remove(keyfile)
-			results[i].res = &hr
-		}(i)
-	}
-	wg.Wait()
+	h := harnessByName(harnessName)
 	m := &harnessResult{Harness: harnessName, Bound: bound, Bits: bits, Outcomes: map[string]int64{}, Classes: map[string]int64{}, Overlaps: map[string]int64{}, Counts: map[string]int64{}}
 	m.Stats.Bound = bound
 	m.Stats.Exhaustive = true
 	traces := map[uint64]bool{}
 	nontriv := map[uint64]bool{}
 	fails := map[string]*failing{}
-	for _, w := range results {
-		if w.res == nil {
-			m.Stats.Broken = w.err
-			m.Stats.Exhaustive = false
-			continue
+	finish := func() *harnessResult {
+		m.Traces, m.Nontriv = len(traces), len(nontriv)
+		for k := range traces {
+			m.TraceKeys = append(m.TraceKeys, k)
 		}
-		s := w.res.Stats
-		m.Stats.Executions += s.Executions
-		m.Stats.Pruned += s.Pruned
-		m.Stats.Skipped += s.Skipped
-		m.Stats.Steps += s.Steps
-		m.Stats.Accesses += s.Accesses
-		if s.MaxSteps > m.Stats.MaxSteps {
-			m.Stats.MaxSteps = s.MaxSteps
+		for k := range nontriv {
+			m.NontrivK = append(m.NontrivK, k)
 		}
-		if s.MaxGoroutines > m.Stats.MaxGoroutines {
-			m.Stats.MaxGoroutines = s.MaxGoroutines
+		for _, f := range fails {
+			m.Failures = append(m.Failures, f)
 		}
-		if s.MaxDepth > m.Stats.MaxDepth {
-			m.Stats.MaxDepth = s.MaxDepth
-		}
-		if s.CacheStates > m.Stats.CacheStates {
-			m.Stats.CacheStates = s.CacheStates // every worker reports the shared table's size at its end
-		}
-		if !s.Exhaustive {
-			m.Stats.Exhaustive = false
-			m.Stats.Stopped = s.Stopped
-		}
-		if s.Broken != "" {
-			m.Stats.Broken = s.Broken
-		}
-		for k, v := range w.res.Outcomes {
-			m.Outcomes[k] += v
-		}
-		for k, v := range w.res.Classes {
-			m.Classes[k] += v
-		}
-		for k, v := range w.res.Overlaps {
-			m.Overlaps[k] += v
-		}
-		for k, v := range w.res.Counts {
-			m.Counts[k] += v
-		}
-		if w.res.MaxBlocked > m.MaxBlocked {
-			m.MaxBlocked = w.res.MaxBlocked
-		}
-		for _, k := range w.res.TraceKeys {
-			traces[k] = true
-		}
-		for _, k := range w.res.NontrivK {
-			nontriv[k] = true
-		}
-		for _, f := range w.res.Failures {
-			if g := fails[f.Sig]; g == nil {
-				fails[f.Sig] = f
-			} else {
-				g.Count += f.Count
-				if len(f.Choices) < len(g.Choices) {
-					g.Choices = f.Choices
+		sort.Slice(m.Failures, func(i, j int) bool { return m.Failures[i].Sig < m.Failures[j].Sig })
+		m.WallS = time.Since(start).Seconds()
+		return m
+	}
+	// phase A: try in this process with a private cache and a small cap
+	if small := exploreHarness(h, exploreCfg{bound: bound, deadline: budgetEnd, maxExecs: 3000}); small.Stats.Exhaustive || small.Stats.Broken != "" {
+		m.merge(small, traces, nontriv, fails)
+		m.Stats.CacheStates = small.Stats.CacheStates
+		m.Workers = 1
+		return finish()
+	}
+	// phase B: frontier + workers
+	dir := engine.Scratch()
+	tablePath := filepath.Join(dir, fmt.Sprintf("visited-%s-%d-%d", harnessName, bound, bits))
+	defer os.Remove(tablePath)
+	table, err := vsched.OpenSharedTable(tablePath, bits)
+	if err != nil {
+		m.Stats.Broken = "shared table: " + err.Error()
+		return finish()
+	}
+	defer table.Close()
+	n := numWorkers()
+	items := [][]vsched.PrefixStep{nil}
+	for depth := 6; ; depth += 4 {
+		var next [][]vsched.PrefixStep
+		i := 0
+		part := exploreHarness(h, exploreCfg{bound: bound, deadline: budgetEnd, shared: table, frontierDepth: depth,
+			onFrontier: func(p []vsched.PrefixStep) { next = append(next, append([]vsched.PrefixStep(nil), p...)) },
+			next: func() ([]vsched.PrefixStep, bool) {
+				if i >= len(items) {
+					return nil, false
 				}
+				i++
+				return items[i-1], true
+			}})
+		m.merge(part, traces, nontriv, fails)
+		items = next
+		if !part.Stats.Exhaustive || len(items) == 0 || len(items) >= 40*n || depth >= 70 {
+			break
+		}
+	}
+	m.FrontierItems = len(items)
+	if os.Getenv("VERIF_C32_VERBOSE") != "" {
+		fmt.Fprintf(os.Stderr, "  %s bound %d: frontier %d items after %.1fs (master: %d execs, %d pruned)\n", harnessName, bound, len(items), time.Since(start).Seconds(), m.Stats.Executions, m.Stats.Pruned)
+	}
+	if len(items) > 0 && m.Stats.Exhaustive {
+		itemsPath := filepath.Join(dir, fmt.Sprintf("items-%s-%d", harnessName, bound))
+		b, _ := json.Marshal(items)
+		if err := os.WriteFile(itemsPath, b, 0o600); err != nil {
+			m.Stats.Broken = err.Error()
+			return finish()
+		}
+		defer os.Remove(itemsPath)
+		type wres struct {
+			res *harnessResult
+			err string
+		}
+		results := make([]wres, n)
+		var wg sync.WaitGroup
+		for i := 0; i < n; i++ {
+			wg.Add(1)
+			go func(i int) {
+				defer wg.Done()
+				keyfile := filepath.Join(dir, fmt.Sprintf("keys-%s-%d-%d", harnessName, bound, i))
+				left := time.Until(budgetEnd) + 60*time.Second
+				wr := engine.RunWorker(nil, 16<<20, left, "explore", harnessName, strconv.Itoa(bound), tablePath, strconv.Itoa(int(bits)),
+					strconv.Itoa(i), strconv.FormatInt(budgetEnd.UnixNano(), 10), keyfile, itemsPath)
+				if wr.TimedOut || wr.Died {
+					results[i].err = fmt.Sprintf("worker %d died (timeout=%v exit=%d): %s", i, wr.TimedOut, wr.ExitCode, tail(string(wr.Stderr), 300))
+					return
+				}
+				var hr harnessResult
+				if err := json.Unmarshal(wr.Stdout, &hr); err != nil {
+					results[i].err = fmt.Sprintf("worker %d: bad output: %v: %s", i, err, tail(string(wr.Stdout), 200))
+					return
+				}
+				hr.TraceKeys, hr.NontrivK = readKeys(keyfile)
+				os.Remove(keyfile)
+				results[i].res = &hr
+				if os.Getenv("VERIF_C32_VERBOSE") != "" {
+					fmt.Fprintf(os.Stderr, "  worker %d: execs=%d pruned=%d %.1fs (done at %.1fs)\n", i, hr.Stats.Executions, hr.Stats.Pruned, hr.WallS, time.Since(start).Seconds())
+				}
+			}(i)
+		}
+		wg.Wait()
+		for _, w := range results {
+			if w.res == nil {
+				m.Stats.Broken = w.err
+				m.Stats.Exhaustive = false
+				continue
 			}
+			m.merge(w.res, traces, nontriv, fails)
 		}
-		if len(m.Samples) < 3 {
-			m.Samples = append(m.Samples, w.res.Samples...)
-		}
+		m.Workers = n
 	}
-	m.Traces, m.Nontriv = len(traces), len(nontriv)
-	for k := range traces {
-		m.TraceKeys = append(m.TraceKeys, k)
+	m.Stats.CacheStates = table.Count()
+	if table.IsFull() {
+		m.Stats.Exhaustive = false
+		m.Stats.Stopped = "visited table full"
 	}
-	for k := range nontriv {
-		m.NontrivK = append(m.NontrivK, k)
-	}
-	for _, f := range fails {
-		m.Failures = append(m.Failures, f)
-	}
-	sort.Slice(m.Failures, func(i, j int) bool { return m.Failures[i].Sig < m.Failures[j].Sig })
-	m.WallS = time.Since(start).Seconds()
-	return m
+	return finish()
 }
 
 func tail(s string, n int) string {
@@ -586,30 +708,34 @@ func readKeys(path string) (all, nontriv []uint64) {
 }
 
 func init() {
-	// explore <harness> <bound> <table> <bits> <worker index> <deadline unix nano> <keyfile>
+	// explore <harness> <bound> <table> <bits> <worker index> <deadline unix nano> <keyfile> <items file>
 	workers["explore"] = func(args []string) {
 		runtime.GOMAXPROCS(1)
 		h := harnessByName(args[0])
 		bound, _ := strconv.Atoi(args[1])
 		bits, _ := strconv.Atoi(args[3])
-		idx, _ := strconv.Atoi(args[4])
 		dl, _ := strconv.ParseInt(args[5], 10, 64)
 		t, err := vsched.OpenSharedTable(args[2], uint(bits))
 		if err != nil {
 			fmt.Fprintln(os.Stderr, err)
 			os.Exit(4)
 		}
-		sharedTable = t
-		shuffleSeed = uint64(idx)*0x9E3779B97F4A7C15 + 1
-		if idx == 0 {
-			shuffleSeed = 0 // worker 0 keeps the canonical order (continue the running goroutine first)
+		var items [][]vsched.PrefixStep
+		if b, err := os.ReadFile(args[7]); err != nil || json.Unmarshal(b, &items) != nil {
+			fmt.Fprintln(os.Stderr, "items file:", err)
+			os.Exit(4)
 		}
-		res := exploreHarness(h, bound, time.Unix(0, dl), 0)
+		res := exploreHarness(h, exploreCfg{bound: bound, deadline: time.Unix(0, dl), shared: t, next: func() ([]vsched.PrefixStep, bool) {
+			i := t.NextItem()
+			if i >= int64(len(items)) {
+				return nil, false
+			}
+			return items[i], true
+		}})
 		if t.IsFull() {
 			res.Stats.Exhaustive = false
 			res.Stats.Stopped = "visited table full"
 		}
-		res.Stats.CacheStates = t.Count()
 		var buf []byte
 		nt := map[uint64]bool{}
 		for _, k := range res.NontrivK {
